@@ -140,17 +140,89 @@ def construct {α : Type} [DecidableEq α] (gt : String) (finite : α → Bool) 
   | .error e => .error e
   | .ok (enc, ct) => .ok { gtype := gt, enc := enc, cache := some (ct, gd) }
 
+/-- the constructor with the dtype of the concatenated array made explicit: numpy `kind` letter and item size;
+`toF32` is the cast to single precision (the documented cast of integers; lossless widening of half precision) -/
+def constructDT {α : Type} [DecidableEq α] (gt : String) (finite : α → Bool) (kind : String) (itemsize : Int)
+    (toF32 : α → α) (gd : GData α) : Except ErrKind (Group α) :=
+  match dtypePlan kind itemsize with
+  | .error e => .error e
+  | .ok cast32 => construct gt finite (!cast32 && itemsize == 8) (if cast32 then toF32 else id) gd
+
+/-- an input array: one-dimensional (a flat list of values) or two-dimensional (rows) -/
+inductive Arr (α : Type)
+  | d1 (vals : List α)
+  | d2 (rows : Annot α)
+
+def Arr.shape0 {α : Type} : Arr α → Nat
+  | .d1 vals => vals.length
+  | .d2 rows => rows.length
+
+def Arr.firstEqLast {α : Type} [DecidableEq α] : Arr α → Bool
+  | .d1 vals => match vals.head?, vals.getLast? with
+    | some x, some y => decide (x = y)
+    | _, _ => false
+  | .d2 rows => Ann.firstEqLast rows
+
+/-- all arrays two-dimensional? -/
+def allD2 {α : Type} : List (Arr α) → Option (GData α)
+  | [] => some []
+  | .d2 rows :: rest => match allD2 rest with
+    | some gd => some (rows :: gd)
+    | none => none
+  | .d1 _ :: _ => none
+
+/-- the constructor on arbitrary (1-D or 2-D) input arrays: the validation loop looks at `shape[0]`, then
+`np.concatenate` refuses arrays of different rank, and a one-dimensional result fails the `ndim` guard -/
+def constructArrs {α : Type} [DecidableEq α] (gt : String) (finite : α → Bool) (kind : String) (itemsize : Int)
+    (toF32 : α → α) (arrs : List (Arr α)) : Except ErrKind (Group α) :=
+  match allD2 arrs with
+  | some gd => constructDT gt finite kind itemsize toF32 gd
+  | none =>
+    match mapE (fun (a : Arr α) => pointCountCheck gt (a.shape0 : Int) a.firstEqLast) arrs with
+    | .error e => .error e
+    | .ok _ =>
+      if arrs.any (fun a => match a with | .d2 _ => true | .d1 _ => false) then .error .value   -- mixed ranks
+      else match dtypePlan kind itemsize with
+        | .error e => .error e
+        | .ok _ => match encodePlan 1 0 true 0 false with
+          | .error e => .error e
+          | .ok _ => .error .other
+
 /-- `AnnotationGroup.from_dataset` (also after a file round trip): the stored attributes, no cache -/
 def parse {α : Type} (g : Group α) : Group α := { g with cache := none }
 
 /-! ### reading -/
 
-/-- cut positions from the index list: `((idx - 1) // stored)[1:]`; negative values (malformed
-lists) are outside the model -/
-def cutsOf (stored : Int) (il : List Int) : Except ErrKind (List Nat) :=
-  match mapE (fun i => splitIndex i stored) il with
+/-- `np.any(np.diff(z) <= 0)` -/
+def anyNotIncreasing : List Int → Bool
+  | a :: b :: rest => decide (b - a ≤ 0) || anyNotIncreasing (b :: rest)
+  | _ => false
+
+/-- the validation of the stored index list (translated `indexListGuard` over the five facts about the
+zero-based entries; Python's `or` short-circuits, so the element accesses are only made on a non-empty list) -/
+def checkIndexList (stored nRows : Int) (il : List Int) : Except ErrKind (List Int) :=
+  match mapE pointIndexZero il with
   | .error e => .error e
-  | .ok cs => mapE (fun (c : Int) => if c < 0 then .error .other else .ok c.toNat) (cs.drop splitDropFirst)
+  | .ok z =>
+    match indexListTotal stored nRows with
+    | .error e => .error e
+    | .ok total =>
+      match indexListGuard z.isEmpty
+          (match z.head? with | some h => decide (h ≠ 0) | none => false)
+          (anyNotIncreasing z)
+          (z.any (fun i => decide (Int.fmod i stored ≠ 0)))
+          (match z.getLast? with | some l => decide (l ≥ total) | none => false) with
+      | .error e => .error e
+      | .ok _ => .ok z
+
+/-- cut positions from the index list: validation, then `((idx - 1) // stored)[1:]` -/
+def cutsOf (stored nRows : Int) (il : List Int) : Except ErrKind (List Nat) :=
+  match checkIndexList stored nRows il with
+  | .error e => .error e
+  | .ok _ =>
+    match mapE (fun i => splitIndex i stored) il with
+    | .error e => .error e
+    | .ok cs => mapE (fun (c : Int) => if c < 0 then .error .other else .ok c.toNat) (cs.drop splitDropFirst)
 
 /-- `frombuffer(...).reshape(-1, stored)` and, when CommonZCoordinateValue is present, the z column -/
 def storedRows {α : Type} (stored : Nat) (e : Enc α) : Except ErrKind (List (Row α)) :=
@@ -168,7 +240,7 @@ def splitRows {α : Type} (gt : String) (e : Enc α) (ct stored : Int) (rows : L
     if mode = 0 then equalSplit sections rows
     else match e.indexList with
       | none => .error .attribute
-      | some il => match cutsOf stored il with
+      | some il => match cutsOf stored (rows.length : Int) il with
         | .error err => .error err
         | .ok cuts => .ok (splitCuts rows 0 cuts)
 
